@@ -118,6 +118,8 @@ func fragScript(mod gfModule, self string, f gfFrag, i int) [][]pipe.ScriptPart 
 		parts = append(parts, t(fmt.Sprintf("type S%d struct {\n", i)))
 		fields("\n", "B")
 		parts = append(parts, t("\n}"))
+	case "initfn":
+		parts = append(parts, t(fmt.Sprintf("// init %d is one of possibly several.\nfunc init() { _ = %d }", i, i)))
 	case "grouped":
 		parts = append(parts, t(fmt.Sprintf("var (\n\tGA%d = 1\n\tGB%d = 2\n)", i, i)))
 	case "comment":
@@ -614,7 +616,7 @@ func genfileBatch(self, modName string, idx []int, parsed []gfCase, obsOf, concO
 }
 
 func (genfileFam) Rand(n int, rng *rand.Rand, emit func(cas any)) error {
-	kinds := []string{"func", "method", "var", "const", "type", "grouped", "comment", "directive"}
+	kinds := []string{"func", "method", "var", "const", "type", "grouped", "comment", "directive", "initfn"}
 	noises := []string{"none", "leading_blank", "trailing_blank", "odd_spacing", "no_final_newline", "two_on_one", "split"}
 	modes := []string{"none", "std", "clash", "all"}
 	mods := []string{"go1.24", "go1.18", "go1.21local"}
